@@ -307,6 +307,21 @@ impl Prop for C13 {
                         continue;
                     }
                     if let Some(h) = &leaf.help {
+                        // the whole first paragraph (up to the first empty line), not only its marker
+                        let flat = h.flat();
+                        let first = strip_ws(flat.split("\n\n").next().unwrap_or(""));
+                        if !first.is_empty() && !strip_ws(&short).contains(&first) {
+                            return Verdict::fail(
+                                "short-help-truncates-first-paragraph",
+                                format!(
+                                    "{:?}: the first paragraph of the help of {} is {:?}; the short form does not contain all of it:\n{}",
+                                    show_argv(&case.argv),
+                                    leaf.first_name(),
+                                    flat.split("\n\n").next().unwrap_or(""),
+                                    short
+                                ),
+                            );
+                        }
                         if let Some(m) = markers_with_prefix(&h.flat(), "Hlp").first() {
                             if !short.contains(m) {
                                 return Verdict::fail(
